@@ -270,7 +270,7 @@ RULE = ("p-boxes of 200 steps of every kind (incl. partially degenerate); querie
         "independent nearest-level reference. distinct key = (query kind, p-box kind, arguments)")
 TB = ["hand-written Model/Pbox.v (find_nearest, alpha_cut, cdf, discretise, outer_discretisation, condensation via stacking, get_PI) tied by the in-Coq run",
       "np.linspace modelled as i*step+a with the last element forced to b",
-      "condensation contains the original p-box: checked by the oracle only (not a Coq theorem)",
+      "condensation contains the original p-box: theorem C18_condensation_contains over the reals for every n >= 3 (uses the translated constants 0.001 / 0.999 / 200); floating-point ties at band edges are covered by the oracle only",
       "Staircase moments use the ECDF fallback in the harness process (LP disabled for speed)"]
 
 if __name__ == "__main__":
